@@ -28,7 +28,7 @@ type bpmSlot struct {
 func H_bpm() {
 	nOver := vParam("overrides", 1)
 	diamond := vParam("diamond", 0) != 0
-	const U = 18 // id universe 0..U-1; base ids are 0..16, 17 is a fresh type
+	const U = 19 // id universe 0..U-1; base ids are 0..17, 18 is a fresh type
 
 	// ---- base configuration: every slot has its own id
 	var slots []bpmSlot
@@ -53,6 +53,12 @@ func H_bpm() {
 	sPD := add(4, 12, false)
 	sFT := add(0, 13, false)  // a field provider directly in the Build set
 	sBA := add(1, 14, true)   // a second binding, in set A
+	// optionally (bind2=1) a second binding written in the Build set itself
+	bind2 := vParam("bind2", 0) != 0
+	sBT2 := -1
+	if bind2 {
+		sBT2 = add(0, 15, true)
+	}
 	nSlots := len(slots)
 
 	// ---- symbolic overrides
@@ -74,6 +80,17 @@ func H_bpm() {
 	concT := vInt("concT", 0, U-1)
 	concC := vInt("concC", 0, U-1)
 	concA := vInt("concA", 0, U-1)
+	concT2 := 0
+	if bind2 {
+		// its concrete type: the Build set's own provider, its own value, or a type nobody provides
+		c2 := vInt("concT2", 0, 2)
+		concT2 = vIte(c2 == 0, slots[sPT].id, vIte(c2 == 1, slots[sVT].id, U-1))
+		vAssume(concT2 != slots[sBT2].id)
+		// outside the bound: a binding whose concrete type is the interface of another binding of the same
+		// set (Wire resolves those in argument order)
+		vAssume(concT2 != slots[sBT].id)
+		vAssume(concT != slots[sBT2].id)
+	}
 	vAssume(concA != slots[sBA].id)
 	// a binding never binds an interface to itself (processBind rejects that)
 	vAssume(concT != slots[sBT].id)
@@ -96,6 +113,9 @@ func H_bpm() {
 	T.Providers = []*Provider{{Pkg: pkg, Name: "PT", Out: []types.Type{ty(sPT)}}}
 	T.Values = []*Value{{Out: ty(sVT)}}
 	T.Bindings = []*IfaceBinding{{Iface: ty(sBT), Provided: vType(concT)}}
+	if bind2 {
+		T.Bindings = append(T.Bindings, &IfaceBinding{Iface: ty(sBT2), Provided: vType(concT2)})
+	}
 	T.Fields = []*Field{{Parent: vType(U + 3), Name: "FT", Pkg: pkg, Out: []types.Type{ty(sFT)}}}
 	A.Bindings = []*IfaceBinding{{Iface: ty(sBA), Provided: vType(concA)}}
 	A.Providers = []*Provider{{Pkg: pkg, Name: "SA", IsStruct: true, Out: []types.Type{ty(sSA1), ty(sSA2)}}}
@@ -150,6 +170,9 @@ func H_bpm() {
 			}
 			if s == sBA {
 				conc = concA
+			}
+			if s == sBT2 {
+				conc = concT2
 			}
 			have := false
 			for _, o := range occ {
